@@ -188,6 +188,20 @@ def run(tier):
         t["meta"] = dict(t.get("meta", {}), api="request:" + t["meta"]["req"])
         t.pop("threads", None)
         tasks.append(t)
+    # targeted: list ray requests of which one item fails (end point outside at each position; budget too small)
+    for nd in (2, 3):
+        sh = (6,) * nd
+        inside = [[float(r.uniform(0.5, 5.5)) for _ in range(nd)] for _ in range(3)]
+        for pos in range(3):
+            for honor in (False, True):
+                pts = [list(p) for p in inside]
+                pts[pos] = [7.5] + pts[pos][1:]
+                tasks.append({"op": "api_request", "grid": np.ones(sh), "gridsize": (1.0,) * nd, "origin": None, "kind": "raytrace",
+                              "source": [2.3] * nd, "points": pts, "kw": {"honor_grid": honor}, "timeout": 60.0,
+                              "meta": {"req": "ray_bad_end", "form": "list", "pos": pos, "nd": nd, "api": "request:ray_bad_end_list"}})
+        tasks.append({"op": "api_request", "grid": np.ones(sh), "gridsize": (1.0,) * nd, "origin": None, "kind": "raytrace",
+                      "source": [0.2] * nd, "points": [[5.7] * nd, [0.4] * nd, [5.2] * nd], "kw": {"max_step": 3}, "timeout": 60.0,
+                      "meta": {"req": "ray_budget", "form": "list", "nd": nd, "api": "request:ray_budget_list"}})
     ri = C.run_impl([dict(t, timeout=t.get("timeout", 20.0)) for t in tasks], "interp", timeout=6000)
     ok_idx = [k for k, o in enumerate(ri) if o["status"] != "Timeout"]
     rj = C.run_impl([dict(tasks[k], timeout=30.0) for k in ok_idx], "jit", timeout=6000)
